@@ -17,7 +17,7 @@ from vf.statehist import C
 ID = "C06"
 LEVEL = "exploration"
 SHARDS = {"quick": 8, "thorough": 16}
-EXHAUSTIVE = {"quick": True, "thorough": True}
+EXHAUSTIVE = {"quick": False, "thorough": False}   # only the product sub-space is enumerated completely (see RULE)
 RULE = ("cases = (prefix history of <=12 state-tracked calls incl. set_bounds "
         "on any of the seven properties, tool started through either API at "
         "any power, power changed by S= on a move or set_tool_power, coolant "
